@@ -10,11 +10,11 @@ cmd="$1"; n="$2"; shift 2
 L=/tmp/lanes/$n
 sync_lane() {
   mkdir -p "$L/verif/evidence" "$L/verif/replays"
-  rsync -a --delete --exclude target --exclude target-chrono /verif/harness/ "$L/verif/harness/" --exclude .cargo
+  rsync -a --delete --exclude target --exclude target-chrono "${LANE_SRC:-/verif}/harness/" "$L/verif/harness/" --exclude .cargo
   mkdir -p "$L/verif/harness/.cargo"
-  sed "s#/verif/harness/target#$L/verif/harness/target#" /verif/harness/.cargo/config.toml > "$L/verif/harness/.cargo/config.toml"
+  sed "s#/verif/harness/target#$L/verif/harness/target#" "${LANE_SRC:-/verif}/harness/.cargo/config.toml" > "$L/verif/harness/.cargo/config.toml"
   sed -i "s#path = \"/repo/#path = \"$L/repo/#" "$L/verif/harness/Cargo.toml"
-  cp /verif/check /verif/KNOWN_FINDINGS.txt "$L/verif/"
+  cp "${LANE_SRC:-/verif}/check" "${LANE_SRC:-/verif}/KNOWN_FINDINGS.txt" "$L/verif/"
   git -C "$L/repo" checkout -q --detach "$(git -C /repo rev-parse HEAD)"
 }
 case "$cmd" in
